@@ -281,6 +281,7 @@ func cmdTable(args []string) int {
 	count := fs.Int("count", 10, "number of scenarios")
 	profile := fs.String("profile", "general", "scenario family")
 	via := fs.String("via", "", "manager: route every call through a pokertable.Manager")
+	actors := fs.Bool("actors", false, "attach observer actors to every table update")
 	allowS := fs.String("allow", "", "comma list of known-finding triggers this pool may contain")
 	out := fs.String("out", "", "output ndjson")
 	scenFile := fs.String("scenario", "", "run the scenarios (JSON list) in this file instead of generating")
@@ -325,6 +326,9 @@ func cmdTable(args []string) int {
 	for _, sc := range scs {
 		if *via != "" {
 			sc.Via = *via
+		}
+		if *actors {
+			sc.Actors = true
 		}
 		rec.StartTrace(int(sc.Seed))
 		b, _ := json.Marshal(sc)
